@@ -440,6 +440,8 @@ package client
 //@ ensures [C11:authcall] auth != nil && ret(WTR,0,0) == nil && !(calls(PR) == 1 && ret(PR,0,0) != nil) && !noProducer() ==> calls(AR) == 1 && recv(AR,0) == auth && arg(AR,0,0) == boxas(r, "*request") && arg(AR,0,1) == registry
 //@ spec noProducer() := !F() && P() && !implements(after(WTR, r.payload), "io.Reader") && (!after(WTR, in(mediaType, producers)) || after(WTR, producers[mediaType]) == nil)
 //@ ensures [C11:autherr] calls(AR) == 1 && ret(AR,0,0) != nil ==> result1 != nil
+//@ ensures [C11:copyerr] calls(AR) == 1 && after(AR, copyErr) != nil ==> result1 != nil && result0 == nil
+//@ ensures [C12:causes] result1 != nil ==> ret(WTR,0,0) != nil || noProducer() || (calls(PR) == 1 && ret(PR,0,0) != nil) || (calls(AR) == 1 && (after(AR, copyErr) != nil || ret(AR,0,0) != nil)) || (calls(UP) >= 1 && ret(UP,0,1) != nil) || (calls(UP) == 2 && ret(UP,1,1) != nil) || (calls(NRQ) == 1 && ret(NRQ,0,1) != nil)
 //@ ensures [C11:headers] result1 == nil ==> result0.Header == r.header
 //@ ensures [C10:parse] result1 == nil ==> calls(UP) == 2 && arg(UP,0,0) == basePath && arg(UP,1,0) == old(r.pathPattern) && ret(UP,0,1) == nil && ret(UP,1,1) == nil
 //@ ensures [C10:join] result1 == nil ==> calls(PJ) == 1 && argv(PJ,0,0,0) == before(PJ, ret(UP,0,0).Path) && argv(PJ,0,0,1) == before(PJ, ret(UP,1,0).Path)
